@@ -1595,7 +1595,7 @@ func specText(r *R) (string, bool) {
 			return "", true
 		}
 		return prefix(specFmt(r.Fmt), c), false
-	case "withstack", "hint", "detail", "issuelink", "telemetry", "domain", "tags", "assert", "safedetails", "http", "grpc", "pkgstack":
+	case "withstack", "hint", "detail", "hintf", "detailf", "issuelink", "telemetry", "domain", "tags", "assert", "safedetails", "http", "grpc", "pkgstack":
 		return kid(0)
 	case "mark":
 		return kid(0)
@@ -1777,7 +1777,7 @@ func codeName(c int64) string {
 }
 
 // annotation-only constructors
-var annotOps = map[string]bool{"withstack": true, "hint": true, "detail": true, "issuelink": true, "telemetry": true,
+var annotOps = map[string]bool{"withstack": true, "hint": true, "detail": true, "hintf": true, "detailf": true, "issuelink": true, "telemetry": true,
 	"domain": true, "tags": true, "assert": true, "safedetails": true, "http": true, "grpc": true, "mark": true, "secondary": true}
 
 func init() {
